@@ -11,6 +11,12 @@
                              Model/MCSettings.lean mirrors
   qexpy/data/operations.py   MonteCarloEvaluator.evaluate / regenerate_samples / clear / samples —
                              strategy dispatch and caching, compared with the same model
+  both classes               every OTHER method (show_histogram, MonteCarloSettings.samples,
+                             __compute_samples, anything added later) must be read-only: no store
+                             to an attribute or item of `self`, no mutating call (`clear`, `pop`,
+                             `setdefault`, `update`, ...) on something reached through `self`, no
+                             call of a setting-changing method — the model's `display` operation
+                             leaves the state as the `d.mc` access alone leaves it
 
 "Compared" = the method body, docstrings and comments dropped, locals and parameters renamed in
 order of appearance, must be the expected statement list (written below as Python source).  The
@@ -290,10 +296,74 @@ def gen_evaluator(broken):
             broken.append(str(e))
 
 
+MUTATORS = {"clear", "pop", "popitem", "setdefault", "update", "append", "extend", "insert", "remove",
+            "sort", "fill", "resize", "put", "itemset", "setfield", "setflags", "__setitem__",
+            "__delitem__", "__setattr__", "__delattr__", "__iadd__"}
+# methods of the settings / evaluator objects that change what the quantity reports
+STATE_CHANGERS = {"set_xrange", "use_mode_with_confidence", "use_mean_and_std",
+                  "use_custom_value_and_error", "reset_sample_size", "regenerate_samples", "evaluate"}
+
+
+def _root_is_self(n):
+    while isinstance(n, (ast.Attribute, ast.Subscript, ast.Call)):
+        n = n.func if isinstance(n, ast.Call) else n.value
+    return isinstance(n, ast.Name) and n.id == "self"
+
+
+def writes_of(fn):
+    """the places where a method stores into / mutates something reached through `self`"""
+    hits = []
+    for node in ast.walk(fn):
+        targets = []
+        if isinstance(node, ast.Assign):
+            targets = node.targets
+        elif isinstance(node, (ast.AugAssign, ast.AnnAssign)):
+            targets = [node.target]
+        elif isinstance(node, ast.Delete):
+            targets = node.targets
+        elif isinstance(node, (ast.For, ast.AsyncFor)):
+            targets = [node.target]
+        elif isinstance(node, ast.NamedExpr):
+            targets = [node.target]
+        flat = []
+        for t in targets:
+            flat += list(t.elts) if isinstance(t, (ast.Tuple, ast.List)) else [t]
+        for t in flat:
+            if isinstance(t, (ast.Attribute, ast.Subscript)) and _root_is_self(t):
+                hits.append("line {}: store to `{}`".format(node.lineno, ast.unparse(t)))
+        if isinstance(node, ast.Call) and isinstance(node.func, ast.Attribute) \
+                and _root_is_self(node.func.value):
+            if node.func.attr in MUTATORS or node.func.attr in STATE_CHANGERS:
+                hits.append("line {}: call `{}`".format(node.lineno, ast.unparse(node.func)))
+        if isinstance(node, ast.Call) and isinstance(node.func, ast.Name) \
+                and node.func.id in ("setattr", "delattr") and node.args and _root_is_self(node.args[0]):
+            hits.append("line {}: {}(self...)".format(node.lineno, node.func.id))
+    return hits
+
+
+def gen_readonly(broken):
+    """every method outside the shape tables is read-only (see module docstring)"""
+    for path, cname, shapes in ((OP, "MonteCarloEvaluator", EVALUATOR_SHAPES),
+                                (DU, "MonteCarloSettings", SETTINGS_SHAPES)):
+        cls = classes_of(ast.parse(src(path))).get(cname)
+        if cls is None:
+            continue          # reported by gen_settings / gen_evaluator
+        modelled = {name for name, _ in shapes} | {"__init__"}
+        for f in cls.body:
+            if isinstance(f, (ast.FunctionDef, ast.AsyncFunctionDef)) and f.name not in modelled:
+                for h in writes_of(f):
+                    broken.append("{}: {}.{} is outside the model and must only read: {}".format(
+                        path, cname, f.name, h))
+            elif isinstance(f, (ast.Assign, ast.AnnAssign, ast.AugAssign)):
+                broken.append("{}: {} has a class-level attribute `{}` (state shared between "
+                              "quantities is outside the model)".format(
+                                  path, cname, ast.unparse(f).split("=")[0].strip()))
+
+
 def gen():
     broken, out = [], {}
     for part in (lambda: gen_walk(out), lambda: gen_settings(out, broken),
-                 lambda: gen_evaluator(broken)):
+                 lambda: gen_evaluator(broken), lambda: gen_readonly(broken)):
         try:
             part()
         except Unsupported as e:
